@@ -4,9 +4,11 @@ import (
 	"bytes"
 	"context"
 	"crypto/sha256"
+	"encoding/binary"
 	"encoding/hex"
 	"errors"
 	"fmt"
+	"io"
 	"os"
 	"path/filepath"
 	"sync"
@@ -14,6 +16,7 @@ import (
 
 	"github.com/tonistiigi/fsutil"
 	"github.com/tonistiigi/fsutil/types"
+	"github.com/tonistiigi/fsutil/util"
 	"pgregory.net/rapid"
 
 	h "verif/harness"
@@ -29,12 +32,17 @@ type c07Case struct {
 	Many     int          `json:"many"` // extra flat files many/f0000.. announced (large fan-out)
 	Script   h.SendScript `json:"script"`
 	Capacity int          `json:"capacity"`
+	// Proto: the receiver talks through the library's own length-prefixed byte
+	// stream (util.NewProtoStream over pipes) behind a bridge to the reference sender
+	Proto bool `json:"proto,omitempty"`
+	// Huge > 0: one more file of this size (with 1 MiB chunks: payloads at the 1 MiB mark)
+	Huge int `json:"huge,omitempty"`
 }
 
 var c07TreeCfg = h.TreeCfg{
 	MaxEntries: 10, MaxDepth: 3, Names: []string{"a", "b", "ab", "a-b", "a.b", "c", "a0", "d"},
 	Kinds:  []h.Kind{h.KFile, h.KFile, h.KFile, h.KFile, h.KSymlink, h.KFifo, h.KChar},
-	Xattrs: true, Hardlinks: true, BigFiles: true,
+	Xattrs: true, Hardlinks: true, SpecialLinks: true, BigFiles: true,
 }
 
 func genC07(t *rapid.T) *c07Case {
@@ -96,14 +104,25 @@ func genC07(t *rapid.T) *c07Case {
 	if rapid.IntRange(0, 6).Draw(t, "many") == 0 {
 		c.Many = rapid.SampledFrom([]int{70, 150, 400, 1100}).Draw(t, "nmany")
 	}
+	c.Proto = rapid.IntRange(0, 4).Draw(t, "proto") == 0
+	if len(sc.Chunk) == 1 && sc.Chunk[0] == 1<<20 && rapid.Bool().Draw(t, "hugefile") {
+		c.Huge = 1<<20 + rapid.SampledFrom([]int{0, 1, 5, 1 << 20}).Draw(t, "hugeextra")
+	}
 	return c
 }
 
 func c07Tree(c *c07Case) *h.Tree {
-	if c.Many == 0 {
+	if c.Many == 0 && c.Huge == 0 {
 		return c.Tree
 	}
 	tr := c.Tree.Clone()
+	if _, ok := tr.Index()["huge"]; !ok && c.Huge > 0 {
+		tr.Nodes = append(tr.Nodes, h.Node{Path: "huge", Kind: h.KFile, Perm: 0o644, Mtime: 9, Seed: 4711, Size: c.Huge})
+		tr.Normalize()
+	}
+	if c.Many == 0 {
+		return tr
+	}
 	if _, ok := tr.Index()["many"]; !ok {
 		tr.Nodes = append(tr.Nodes, h.Node{Path: "many", Kind: h.KDir, Perm: 0o755, Mtime: 5})
 		for i := 0; i < c.Many; i++ {
@@ -112,6 +131,66 @@ func c07Tree(c *c07Case) *h.Tree {
 		tr.Normalize()
 	}
 	return tr
+}
+
+// c07ReceiveOverProtoStream runs Receive over util.NewProtoStream on two pipes and
+// bridges the byte stream to the harness pair with its own framing codec.
+func c07ReceiveOverProtoStream(pair *h.Pair, dest string) (err error) {
+	toBridgeR, toBridgeW := io.Pipe()
+	toRecvR, toRecvW := io.Pipe()
+	stream := util.NewProtoStream(pair.R.Context(), toRecvR, toBridgeW)
+	var bw sync.WaitGroup
+	bw.Add(1)
+	go func() { // receiver -> sender
+		defer bw.Done()
+		var hd [4]byte
+		for {
+			if _, e := io.ReadFull(toBridgeR, hd[:]); e != nil {
+				return
+			}
+			body := make([]byte, binary.BigEndian.Uint32(hd[:]))
+			if _, e := io.ReadFull(toBridgeR, body); e != nil {
+				return
+			}
+			var p types.Packet
+			if e := p.UnmarshalVT(body); e != nil {
+				pair.R.Break(fmt.Errorf("verif: undecodable frame from the receiver: %v", e))
+				toBridgeR.CloseWithError(e)
+				return
+			}
+			if e := pair.R.SendMsg(&p); e != nil {
+				toBridgeR.CloseWithError(e)
+				return
+			}
+		}
+	}()
+	go func() { // sender -> receiver
+		for {
+			var p types.Packet
+			if e := pair.R.RecvMsg(&p); e != nil {
+				toRecvW.CloseWithError(io.EOF)
+				return
+			}
+			body, _ := p.MarshalVT()
+			var hd [4]byte
+			binary.BigEndian.PutUint32(hd[:], uint32(len(body)))
+			if _, e := toRecvW.Write(append(hd[:], body...)); e != nil {
+				return
+			}
+		}
+	}()
+	func() {
+		defer func() {
+			if r := recover(); r != nil {
+				err = fmt.Errorf("Receive panicked: %v", r)
+			}
+		}()
+		err = fsutil.Receive(pair.R.Context(), stream, dest, fsutil.ReceiveOpt{})
+	}()
+	toBridgeW.Close()
+	toRecvR.Close()
+	bw.Wait()
+	return err
 }
 
 func c07Check(env *h.Env, c *c07Case) error {
@@ -168,7 +247,11 @@ func c07Check(env *h.Env, c *c07Case) error {
 	wg.Add(2)
 	go func() {
 		defer wg.Done()
-		recvErr = fsutil.Receive(pair.R.Context(), pair.R, dstDir, fsutil.ReceiveOpt{})
+		if c.Proto {
+			recvErr = c07ReceiveOverProtoStream(pair, dstDir)
+		} else {
+			recvErr = fsutil.Receive(pair.R.Context(), pair.R, dstDir, fsutil.ReceiveOpt{})
+		}
 		pair.R.Returned(recvErr)
 	}()
 	go func() {
@@ -204,6 +287,12 @@ func c07Check(env *h.Env, c *c07Case) error {
 	}
 	if c.Script.Serial {
 		env.Class("single-threaded-sender")
+	}
+	if c.Proto {
+		env.Class("library-byte-stream")
+	}
+	if c.Huge > 0 {
+		env.Class("payload-at-1MiB")
 	}
 	if c.Script.RaceStats {
 		env.Class("stat-data-race")
